@@ -1,0 +1,12 @@
+//go:build !verif
+
+/*
+AnyType Library for Go
+Verification hooks (disabled: no-ops unless built with the "verif" build tag)
+*/
+
+package anytype
+
+func verifStep(machine int, state parserState, char rune, remaining int, line int) {}
+
+func verifGate(site string, id any) {}
